@@ -176,6 +176,10 @@ pub fn main_clip(args: &[String]) -> i32 {
     // cells that undergo more than 256 successful clips (all of them remaining faces): 2D polygon and 3D prism
     inputs.push(crate::tess::refine_input(inputs.len(), 2, 300, seed));
     inputs.push(crate::tess::refine_input(inputs.len(), 3, 280, seed ^ 1));
+    // old faces revisited after every gap length in a window around 2^8 successful clips
+    for m in 236..=262 {
+        inputs.push(crate::tess::sector_input(inputs.len(), if m % 5 == 0 { 3 } else { 2 }, m, seed));
+    }
     let mut b_cells = 0usize;
     let mut b_variants = 0usize;
     let mut b_max_planes = 0usize;
